@@ -103,14 +103,11 @@ mod verif {
     /// For an arbitrary reference state (indexed streams + up to 2 pending appends) and a transaction of up to 2 events over up to 3
     /// streams: Ok iff every expectation holds against the stream state EXTENDED by the earlier events of the same transaction and
     /// every touched stream has the transaction's partition key; the returned versions are the versions each event saw.
-    #[kani::proof]
-    #[kani::unwind(4)]
-    fn ws_validate_event_versions() {
+    fn ws_validate<const N: usize, const NP: usize>() {
         let indexed = IndexedState { streams: [
             if kani::any() { Some((Uuid(kani::any::<u8>() % 2), kani::any())) } else { None },
             if kani::any() { Some((Uuid(kani::any::<u8>() % 2), kani::any())) } else { None } ] };
-        let np: usize = kani::any();
-        kani::assume(np <= 1);
+        let np: usize = NP;
         let mut pend = Vec::new();
         // pending entries continue the indexed state of their stream (writer invariant)
         let (ps0, ps1): (u8, u8) = (kani::any::<u8>() % 2, kani::any::<u8>() % 2);
@@ -126,8 +123,7 @@ mod verif {
         };
         kani::assume(indexed.streams.iter().all(|x| x.map(|(_, v)| v < u64::MAX - 4).unwrap_or(true)));
         let key = Uuid(kani::any::<u8>() % 2);
-        let n: usize = kani::any();
-        kani::assume(n >= 1 && n <= 2);
+        let n: usize = N;
         let e0 = NewEvent { stream_id: StreamId(kani::any::<u8>() % 2), stream_version: any_ev() };
         let e1 = NewEvent { stream_id: StreamId(kani::any::<u8>() % 2), stream_version: any_ev() };
         let events = [e0.clone(), e1.clone()];
@@ -156,4 +152,7 @@ mod verif {
         }
         kani::cover!(n == 2 && s0 == s1 && expect_ok, "reachable: two accepted events on one stream");
     }
+    #[kani::proof] #[kani::unwind(4)] fn ws_validate_one_event() { ws_validate::<1, 1>(); }
+    #[kani::proof] #[kani::unwind(4)] fn ws_validate_two_events() { ws_validate::<2, 0>(); }
+    #[kani::proof] #[kani::unwind(4)] fn ws_validate_two_events_pending() { ws_validate::<2, 1>(); }
 }
